@@ -134,6 +134,15 @@ def gen_lits():
     if not m: raise ExtractError("locator 'inc_value not numeric message' not found")
     emit("notNumericMsg", m.group(1), "bo.rs inc_value")
 
+    # strategy of the admin database (Databases::new) and of a database loaded without a metadata file
+    m = re.search(r"DatabaseMataData::new\(0, ConsensuStrategy::(\w+)\),?\s*\);?\s*// id 0", src("bo.rs"))
+    if not m: raise ExtractError("locator 'admin db strategy' not found")
+    emit("adminStrategy", m.group(1).lower(), "bo.rs Databases::new admin database strategy")
+    body, _ = fn_body("storage/disk.rs", r"fn load_db_metadata_from_disk_or_empty\b[^{]*\{", "load_db_metadata_from_disk_or_empty")
+    m = re.search(r"DatabaseMataData::new\(dbs\.map\.read\(\)\.unwrap\(\)\.len\(\), ConsensuStrategy::(\w+)\)", body)
+    if not m: raise ExtractError("locator 'default strategy without metadata' not found")
+    emit("noMetaStrategy", m.group(1).lower(), "storage/disk.rs strategy of a database restored without metadata")
+
     # hand-listed literals of the request path (tied by correspondence, not extracted)
     hand = {
         "zero": "0",
